@@ -48,6 +48,7 @@ package queue
 //@ func (*Queue) Write
 //@   requires [recv] q != nil
 //@   assigns *
+//@   assert @send:q.batchCh: [sent-under-lock] locked("seqMu")
 //@   assert @send:q.batchCh: [carries] result != nil && result.SequenceNumber == q.seqNum && q.seqNum == atlock(q.seqNum) + 1 && result.Objects == objects && result.flushChan == c
 //@   ensures [returns-seq] result1 == nil ==> result0 == atlock(q.seqNum) + 1
 //
